@@ -278,6 +278,14 @@ def run(ctx, rep):
             return "?"
         ka, kb = kind(A, ct["a"][0]), kind(B, ct["a"][1])
         rep.check("C10.size", "comparison is between the re-serialised size and the size read", {ka, kb} == {"new", "old"}, loc_of(b, ct), "cmp(%s, %s)" % (ka, kb))
+        # the size read is a number of bytes, not a place in the file: an absolute stream position equals it only for a stream
+        # that starts at offset 0 of the file (update() may be handed a file positioned anywhere)
+        for k_, o_ in ((ka, ct["a"][0]), (kb, ct["a"][1])):
+            if k_ == "old" and op_place(o_) is not None:
+                sl_ = backward_slice(b, o_)
+                pos = [c for c in sl_["calls"] if re.search(r"Seek::(stream_position|seek)$|::stream_position$", callee_name(c))]
+                rep.check("C10.size", "the size read is a byte count, not an absolute position", not pos or any(x.startswith("Sub") for x in sl_["ops"]), loc_of(b, ct), "",
+                          "the old size of the metadata is taken from %s without subtracting where the stream started: for a stream that does not begin at offset 0 the padding is resized by the wrong amount and the audio moves" % sorted({strip_generics(callee_name(c)) for c in pos}))
         # switch on the Ordering
         sw = None
         for bi2, bl in enumerate(b.blocks):
